@@ -32,7 +32,7 @@ EXTRA_MODULES = [('MpVerif.C01.PropsCompose', 'MpVerif/C01/PropsCompose.lean', C
                  # round 5: the reference converter is correct (C01_convert_equiv / _objective)
                  ('MpVerif.C01.PropsConvert', 'MpVerif/C01/PropsConvert.lean', 9),
                  # round 7: created bounds/types of convert's result variables = the generated PreprocessConstraint overloads
-                 ('MpVerif.C01.PropsPreproTie', 'MpVerif/C01/PropsPreproTie.lean', 7),
+                 ('MpVerif.C01.PropsPreproTie', 'MpVerif/C01/PropsPreproTie.lean', 9),
                  # statement audit (round 4): non-vacuity instances only, no C01_ theorems of its own
                  ('MpVerif.C01.PropsAudit', 'MpVerif/C01/PropsAudit.lean', 0)]
 
@@ -1337,7 +1337,7 @@ def run_gadgets(ck, n_cases=None, proof=True):
             failing = failing + fail2
         res['proof_ok'], res['failing'] = ok, failing
         if ck.tier == 'thorough' and ok:
-            badm = ck.leanchecker(['MpVerif.C01.Props', 'MpVerif.C01.PropsCompose', 'MpVerif.C01.PropsCtxGen', 'MpVerif.C01.PropsObjective', 'MpVerif.C01.PropsGenTie', 'MpVerif.C01.PropsConvert', 'MpVerif.C01.PropsPreproTie'])
+            badm = ck.leanchecker(['MpVerif.C01.Props', 'MpVerif.C01.PropsCompose', 'MpVerif.C01.PropsCtxGen', 'MpVerif.C01.PropsObjective', 'MpVerif.C01.PropsGenTie', 'MpVerif.C01.PropsConvert', 'MpVerif.C01.PropsPreproTie'] + [m for m, _f, _n in EXTRA_MODULES if m.endswith('PropsPropBounds')])
             if badm:
                 res['proof_ok'] = False
                 res['failing'] += ['leanchecker rejected %s' % x for x in badm]
